@@ -95,7 +95,7 @@ func findSelectorExprViolation(
 	expr *ast.SelectorExpr,
 ) *PackageOnlyViolation {
 	// Get the type information
-	obj := ctx.pass.TypesInfo.ObjectOf(expr.Sel)
+	obj := usedObject(ctx.pass.TypesInfo, expr.Sel)
 	if obj == nil {
 		return nil
 	}
@@ -139,7 +139,7 @@ func findIdentViolation(
 	ctx *packageOnlyContext,
 	ident *ast.Ident,
 ) *PackageOnlyViolation {
-	obj := ctx.pass.TypesInfo.ObjectOf(ident)
+	obj := usedObject(ctx.pass.TypesInfo, ident)
 	if obj == nil {
 		return nil
 	}
@@ -170,6 +170,16 @@ func findIdentViolation(
 	}
 
 	return nil
+}
+
+// usedObject returns the object an identifier refers to. The name of an embedded field both
+// defines the field and uses the type: ObjectOf prefers the field, but the reference to judge is
+// the type, so Uses is consulted first.
+func usedObject(info *types.Info, id *ast.Ident) types.Object {
+	if obj := info.Uses[id]; obj != nil {
+		return obj
+	}
+	return info.ObjectOf(id)
 }
 
 // aliasTarget returns the defined type an alias type name stands for, or nil
